@@ -128,12 +128,55 @@ def tr_flagprog(tree: ast.Module) -> str:
             return 's'
         return 'b'
 
+    def lift_ifexp(s_):
+        """`x = f(A if c else B)` is `if c: x = f(A) else: x = f(B)` (likewise for `return`): the first conditional
+        expression that is not the lookup idiom `... if s in flags else ...` is turned into a fork."""
+        val = s_.value
+        if val is None:
+            return None
+        cand = [n for n in ast.walk(val) if isinstance(n, ast.IfExp) and not (
+            isinstance(n.test, ast.Compare) and len(n.test.ops) == 1 and isinstance(n.test.ops[0], (ast.In, ast.NotIn)))]
+        if not cand:
+            return None
+        ie = cand[0]
+
+        def with_(repl):
+            class Sub(ast.NodeTransformer):
+                def visit_IfExp(self, n):
+                    return copy.deepcopy(repl) if n is ie else self.generic_visit(n)
+            new = copy.copy(s_)
+            new.value = Sub().visit(val) if val is not ie else copy.deepcopy(repl)
+            return new
+        # (the transformer mutates `val` in place for nested nodes: work on copies)
+        a_ = copy.deepcopy(s_)
+        b_ = copy.deepcopy(s_)
+        for clone, pick in ((a_, 'body'), (b_, 'orelse')):
+            c2 = [n for n in ast.walk(clone.value) if isinstance(n, ast.IfExp) and not (
+                isinstance(n.test, ast.Compare) and len(n.test.ops) == 1 and isinstance(n.test.ops[0], (ast.In, ast.NotIn)))][0]
+            repl = getattr(c2, pick)
+            if clone.value is c2:
+                clone.value = repl
+            else:
+                for parent in ast.walk(clone.value):
+                    for fld, v in ast.iter_fields(parent):
+                        if v is c2:
+                            setattr(parent, fld, repl)
+                        elif isinstance(v, list):
+                            for i_, x in enumerate(v):
+                                if x is c2:
+                                    v[i_] = repl
+        return ast.copy_location(ast.If(test=ie.test, body=[a_], orelse=[b_]), s_)
+
     def run(stmts, env, depth=0) -> str:
         if depth > 40:
             raise _err(fn, '_read_flag: too deep')
         if not stmts:
             return 'FFail'          # falls off the end: returns None
         s_, rest = stmts[0], list(stmts[1:])
+        if isinstance(s_, (ast.Assign, ast.AnnAssign, ast.Return)):
+            lifted = lift_ifexp(s_)
+            if lifted is not None:
+                return run([lifted] + rest, env, depth + 1)
         if isinstance(s_, ast.Pass) or (isinstance(s_, ast.Expr) and isinstance(s_.value, ast.Constant)):
             return run(rest, env, depth + 1)
         if isinstance(s_, (ast.Assign, ast.AnnAssign)):
